@@ -195,6 +195,24 @@ MAG_FIXED = [10.0 ** k for k in range(-12, 13)] + [0.0, -0.0, -1.0, -1e-12, -1e1
                                                     123456.789, 0.1, 1.0 / 3.0, 98.6, 7.5, -2.5e-7]
 
 
+TEMP_SPECIAL = [-273.15, -459.67, 0.0, -0.0, 32.0, 273.15, 255.3722222222222, -40.0, 100.0, 212.0, 373.15, 1e-300, -1e-300,
+                5e-324, 1e300, -1e300, 0.01, -273.15000000000003, -273.14999999999998, 31.999999999999996]
+
+
+def special_magnitude(rng, temperature):
+    """magnitudes for the reciprocal / temperature kinds: temperature takes any finite |v| <= 2^1000 (offsets, zero,
+    subnormal, huge); the others a random mantissa times 2^e, e mostly in the proved window [-40, 39]"""
+    if temperature and rng.chance(1, 4):
+        return rng.choice(TEMP_SPECIAL)
+    mant = 1.0 + rng.below(1 << 52) / float(1 << 52)
+    if temperature:
+        e = rng.below(41) - 20 if rng.chance(2, 3) else rng.below(1901) - 950
+    else:
+        e = rng.below(80) - 40 if rng.chance(9, 10) else rng.below(401) - 200
+    x = mant * 2.0 ** e
+    return -x if rng.chance(1, 3) else x
+
+
 def magnitudes(rng, n):
     """n magnitudes: fixed interesting ones first in rotation + random mantissas with decimal exponent in [-12, 12]"""
     out = []
@@ -350,6 +368,77 @@ def temperature_tolerance(vals):
     return 8 * ulp_of(9.0 * m)
 
 
+# ----------------------------------------------------------------------------- the PROVED binary64 bounds
+# (coq/Properties/C17.v; the implementation-level search uses exactly these, compared in exact rational arithmetic)
+from fractions import Fraction as _Fr
+
+U53 = _Fr(1, 2 ** 53)                       # u53
+QQ = 1 / (1 - U53)                          # qq = 1/(1 - 2^-53)
+BOUND_TAB_LINEAR = (1 + U53) ** 4 - 1       # C17_there_and_back_float_linear_table: |r - v| <= this * |v|
+BOUND_TAB_LR = QQ ** 4 - 1                  # C17_there_and_back_float_table (linear/reciprocal mix)
+BOUND_COMP_LR = QQ ** 6 - 1                 # C17_composition_float_table: |fl(A>B>C) - fl(A>C)| <= this * |fl(A>C)|
+KV = 40                                     # hypothesis of those theorems: 2^-40 <= |v| <= 2^40
+# C17_there_and_back_float_temperature: |r - v| <= 2^-53 * (1 + 1/1024) * (A*|v| + B), (A, B) by the to_kelvin functions
+TEMP_AB = {
+    ("TF_kelvin_to_kelvin", "TF_kelvin_to_kelvin"): (0, 0),
+    ("TF_kelvin_to_kelvin", "TF_celsius_to_kelvin"): (2, 274), ("TF_celsius_to_kelvin", "TF_kelvin_to_kelvin"): (2, 274),
+    ("TF_kelvin_to_kelvin", "TF_fahrenheit_to_kelvin"): (8, 2037), ("TF_fahrenheit_to_kelvin", "TF_kelvin_to_kelvin"): (8, 3666),
+    ("TF_celsius_to_kelvin", "TF_celsius_to_kelvin"): (4, 1093),
+    ("TF_celsius_to_kelvin", "TF_fahrenheit_to_kelvin"): (10, 4495), ("TF_fahrenheit_to_kelvin", "TF_celsius_to_kelvin"): (10, 5205),
+    ("TF_fahrenheit_to_kelvin", "TF_fahrenheit_to_kelvin"): (16, 11521),
+}
+TEMP_VMAX = _Fr(2) ** 1000
+
+
+def _finite(bits):
+    return (bits >> 52) & 0x7FF != 0x7FF
+
+
+def _exact(bits):
+    return _Fr(b2f(bits))
+
+
+def _in_window(av):
+    return _Fr(1, 2 ** KV) <= av <= _Fr(2 ** KV)
+
+
+def proved_tab_bound(u, x, vbits):
+    """(absolute bound as a Fraction, which theorem) for there-and-back u -> x -> u on value v, or (None, why) when
+    (u, x, v) is outside the hypotheses of every proved float theorem"""
+    if not _finite(vbits):
+        return None, "non-finite value"
+    av = abs(_exact(vbits))
+    ku, kx = u["kind"], x["kind"]
+    if ku == "temperature" and kx == "temperature":
+        ab = TEMP_AB.get((u.get("to"), x.get("to")))
+        if ab is None or av > TEMP_VMAX:
+            return None, "temperature function not identified"
+        return U53 * (1 + _Fr(1, 1024)) * (ab[0] * av + ab[1]), "C17_there_and_back_float_temperature"
+    if ku == "temperature" or kx == "temperature":
+        return None, "temperature mixed with another kind"
+    if av == 0:
+        return _Fr(0), "zero (exact: 0*c/c = 0, c/inf = 0; C17_there_and_back_Q)"
+    if not _in_window(av):
+        return None, "|v| outside [2^-40, 2^40]"
+    if ku == "linear" and kx == "linear":
+        return BOUND_TAB_LINEAR * av, "C17_there_and_back_float_linear_table"
+    return BOUND_TAB_LR * av, "C17_there_and_back_float_table"
+
+
+def proved_comp_bound(us, vbits, r3bits):
+    """bound on |fl(A>B>C) - fl(A>C)| (C17_composition_float_table), or (None, why)"""
+    if not _finite(vbits) or not _finite(r3bits):
+        return None, "non-finite value"
+    if any(u["kind"] == "temperature" for u in us):
+        return None, "temperature kind (composition not proved in binary64)"
+    av = abs(_exact(vbits))
+    if av == 0:
+        return _Fr(0), "zero (exact)"
+    if not _in_window(av):
+        return None, "|v| outside [2^-40, 2^40]"
+    return BOUND_COMP_LR * abs(_exact(r3bits)), "C17_composition_float_table"
+
+
 # ----------------------------------------------------------------------------- laws on the implementation
 class Laws:
     def __init__(self, tb, impl, res, known_ids):
@@ -361,6 +450,17 @@ class Laws:
         self.counts = {}
         self.known_hits = {"C17-self-float": 0, "C17-dup-ident": 0}
         self.fail_count = 0
+        self.tol = {}                       # which tolerance decided each float comparison
+        self.tol_ratio = {}                 # largest observed error / proved bound, per theorem
+
+    def ratio(self, which, err, bound):
+        if bound > 0:
+            r = float(err / bound)
+            if r > self.tol_ratio.get(which, -1.0):
+                self.tol_ratio[which] = r
+
+    def tol_count(self, which):
+        self.tol[which] = self.tol.get(which, 0) + 1
 
     def count(self, law, n=1):
         self.counts[law] = self.counts.get(law, 0) + n
@@ -485,6 +585,22 @@ def law_search(tb, impl, res, rng, tier, known, pool=None):
             if usable(ou):
                 plan_cross.append((rng.choice(ids), rng.choice(usable(ou)), f2b(1.0)))
                 plan_cross.append((rng.choice(usable(ou)), rng.choice(ids), f2b(-2.5)))
+    # ---- extra density on the kinds whose binary64 bounds are proved separately (reciprocal: 2 units, temperature: 3)
+    for cat, us in sorted(cats.items()):
+        if all(u["kind"] == "linear" for u in us):
+            continue
+        nx = 120 if tier == "quick" else 1500
+        for u in us:
+            for x in us:
+                if x is u or not usable(u) or not usable(x):
+                    continue
+                for _ in range(nx):
+                    v = special_magnitude(rng, u["kind"] == "temperature" and x["kind"] == "temperature")
+                    plan_pair.append((u, x, rng.choice(usable(u)), rng.choice(usable(x)), f2b(v)))
+    L.kind_pairs = {}
+    for u, x, _a, _b, _v in plan_pair:
+        k = "%s>%s" % (u["kind"], x["kind"])
+        L.kind_pairs[k] = L.kind_pairs.get(k, 0) + 1
     # phase 1
     reqs = [(a, b, v) for _, a, b, v in plan_self]
     for u, c0, al, x, v in plan_alias:
@@ -527,7 +643,8 @@ def law_search(tb, impl, res, rng, tier, known, pool=None):
         if impl.get(x, c0, v) != impl.get(x, al, v):
             L.fail("two identifiers of one unit convert differently (as target)", {"unit": canon(u)},
                    [(x, c0, v), (x, al, v)])
-    # ---- L4 there and back within rounding (4 ulp = 4 roundings of relative error 2^-53)
+    # ---- L4 there and back within rounding: the tolerance IS the proved bound (exact rational comparison);
+    #      outside the hypotheses of the float theorems (never with today's magnitudes) the old 4-ulp rule
     for u, x, a, b, v in plan_pair:
         L.count("there-and-back")
         r1 = ok_bits(impl.get(a, b, v))
@@ -535,21 +652,51 @@ def law_search(tb, impl, res, rng, tier, known, pool=None):
             L.fail("units of one category do not convert", {"from": canon(u), "to": canon(x)}, [(a, b, v)])
             continue
         r2 = ok_bits(impl.get(b, a, r1))
-        if r2 is None or not close_enough(tb, [u, x], r2, v, 4, [b2f(v), b2f(r1)]):
-            L.fail("converting there and back does not return the original value within rounding",
-                   {"from": canon(u), "to": canon(x), "ulps": None if r2 is None else ulp_dist(r2, v)},
+        bound, why = proved_tab_bound(u, x, v)
+        if r2 is not None and bound is not None and _finite(r2):
+            L.tol_count("proved: " + why)
+            err = abs(_exact(r2) - _exact(v))
+            good = err <= bound
+            L.ratio(why, err, bound)
+        elif r2 is not None and bound is not None:
+            L.tol_count("proved: " + why)
+            err, good = None, False
+        else:
+            L.tol_count("unproved (4 ulp / old absolute temperature tolerance): " + why)
+            err = None
+            good = r2 is not None and close_enough(tb, [u, x], r2, v, 4, [b2f(v), b2f(r1)])
+        if not good:
+            L.fail("converting there and back does not return the original value within the proved rounding bound",
+                   {"from": canon(u), "to": canon(x), "ulps": None if r2 is None else ulp_dist(r2, v),
+                    "bound": None if bound is None else float(bound), "error": None if err is None else float(err),
+                    "theorem": why},
                    [(a, b, v), (b, a, r1)])
-    # ---- L5 composition A->B->C = A->C (6 ulp: 4 roundings on one side, 2 on the other)
+    # ---- L5 composition A->B->C = A->C: proved bound (qq^6 - 1) * |fl(A->C)| for linear/reciprocal units;
+    #      temperature triples: tested only, old absolute tolerance
     for u, x, y, a, b, cc, v in plan_triple:
         L.count("composition")
         r1 = ok_bits(impl.get(a, b, v))
         r3 = ok_bits(impl.get(a, cc, v))
         r2 = ok_bits(impl.get(b, cc, r1)) if r1 is not None else None
-        if r1 is None or r2 is None or r3 is None or \
-                not close_enough(tb, [u, x, y], r2, r3, 6, [b2f(v), b2f(r1), b2f(r3)]):
-            L.fail("converting A to B to C differs from converting A to C beyond rounding",
+        bound, why, err = None, "a conversion failed", None
+        if None not in (r1, r2, r3):
+            bound, why = proved_comp_bound([u, x, y], v, r3)
+        if bound is not None and _finite(r2):
+            L.tol_count("proved: " + why)
+            err = abs(_exact(r2) - _exact(r3))
+            good = err <= bound
+            L.ratio(why, err, bound)
+        elif None not in (r1, r2, r3):
+            L.tol_count("unproved (6 ulp / old absolute temperature tolerance): " + why)
+            good = close_enough(tb, [u, x, y], r2, r3, 6, [b2f(v), b2f(r1), b2f(r3)])
+        else:
+            good = False
+        if not good:
+            L.fail("converting A to B to C differs from converting A to C beyond the proved rounding bound",
                    {"A": canon(u), "B": canon(x), "C": canon(y),
-                    "ulps": None if None in (r2, r3) else ulp_dist(r2, r3)},
+                    "ulps": None if None in (r2, r3) else ulp_dist(r2, r3),
+                    "bound": None if bound is None else float(bound), "error": None if err is None else float(err),
+                    "theorem": why},
                    [(a, b, v), (a, cc, v)] + ([(b, cc, r1)] if r1 is not None else []))
     # ---- L7 different categories never convert
     for a, b, v in plan_cross:
@@ -878,7 +1025,20 @@ def main(argv):
     res.coverage["exhaustive_table_theorems"]["prefix_pairs_in_theorems"] = bs["coq_prefix_pairs"]
     res.coverage["exhaustive_table_theorems"]["identifiers_listed_for_two_units"] = bs["coq_dup_idents"]
     res.streams["IMPL-LAWS"] = {"checked": L.counts, "known_finding_hits": L.known_hits, "prefix_pairs": L.prefix_pairs,
-                                "impl_calls": impl.calls, "failures": L.fail_count}
+                                "impl_calls": impl.calls, "failures": L.fail_count,
+                                "float_tolerances": {
+                                    "rule": "there-and-back and composition are compared in exact rational arithmetic against "
+                                            "the bounds PROVED in coq/Properties/C17.v (tolerance = proved bound)",
+                                    "there-and-back linear/linear": "|r-v| <= ((1+2^-53)^4 - 1)|v|  (C17_there_and_back_float_linear_table)",
+                                    "there-and-back with a reciprocal unit": "|r-v| <= (qq^4 - 1)|v|, qq = 1/(1-2^-53)  (C17_there_and_back_float_table)",
+                                    "there-and-back temperature": "|r-v| <= 2^-53 (1+1/1024)(A|v|+B), (A,B) = " +
+                                        ", ".join("%s>%s:%s" % (k[0][3:4].upper(), k[1][3:4].upper(), v) for k, v in sorted(TEMP_AB.items())) +
+                                        "  (C17_there_and_back_float_temperature)",
+                                    "composition linear/reciprocal": "|fl(A>B>C)-fl(A>C)| <= (qq^6 - 1)|fl(A>C)|  (C17_composition_float_table)",
+                                    "composition temperature": "NOT proved in binary64: 6 ulp or 8*ulp(9*max(|x|,1000)) absolute",
+                                    "decided_by": L.tol,
+                                    "largest observed error / proved bound": L.tol_ratio,
+                                    "there-and-back pairs by kind": getattr(L, "kind_pairs", {})}}
     res.assumptions = [
         "Rust str::to_lowercase is modelled on ASCII plus the non-ASCII characters of the table (dumped map); the table's "
         "own lower-cased identifiers are dumped from Rust and proved equal to the model's (lower_consistent)",
